@@ -298,6 +298,11 @@ class SpecEvalMixin:
     def contains(self, st: State, container: Value, item: Value) -> T:
         container = self.unwrap(container)
         if isinstance(container, VDict):
+            it = self.unwrap(item) if not (isinstance(container.k, KOpt)) else None
+            if it is not None and isinstance(it, (VBytes, VStr, VInt)) and isinstance(container.k, KPrim) \
+                    and elem_sort(container.k) in (SEQI, STR, INT) and it.t.sort != elem_sort(container.k):
+                # a bytes / str / int key looked up in a table keyed by another of these types: never equal to any key
+                return FALSE
             return self.dict_has(st, container, self.key_term(item, container.k))
         if isinstance(container, (VList, VDeque, VSeq)):
             t, ek = self.as_seq(st, container)
@@ -403,6 +408,24 @@ class SpecEvalMixin:
         if m > 0 and (m & (m - 1)) == 0:        # single bit 2^j: 2^j * bit_j(x)
             j = m.bit_length() - 1
             return Mul(I(m), Mod(FloorDiv(x, I(2 ** j)), I(2)))
+        if m > 0:
+            # any positive mask: the sum over its runs of set bits [b, a) of (x mod 2^a) - (x mod 2^b)  (two's complement
+            # semantics of python ints: x mod 2^a is the low a bits also for negative x)
+            terms, b, mm = [], 0, m
+            while mm:
+                while not (mm & 1):
+                    mm >>= 1
+                    b += 1
+                a = b
+                while mm & 1:
+                    mm >>= 1
+                    a += 1
+                terms.append(Sub(Mod(x, I(2 ** a)), Mod(x, I(2 ** b))) if b else Mod(x, I(2 ** a)))
+                b = a
+            r = terms[0]
+            for t_ in terms[1:]:
+                r = Add(r, t_)
+            return r
         if m < 0:
             inv = ~m                            # x & ~inv == x - (x & inv)
             k = self._low_mask(inv)
